@@ -47,8 +47,8 @@ CHECKS = {
                 text="the _ConnectionRecord layer is proved against a ghost 'closed' flag per DBAPI connection: __connect leaves no half-open record when the creator fails, invalidate/close/__close close what they drop, get_connection never hands out a closed connection nor one that predates a pool-wide or soft invalidation (it is closed and replaced by a fresh one; on failure the record holds nothing), checkin runs every finalizer and returns the record exactly once (never on a double check-in); QueuePool._do_get gives its overflow claim back when the creator fails with ANY exception class (shared with C25). Bounded complement: a fault of four exception classes (DBAPI error, disconnect, plain Exception, BaseException) at every DBAPI call position of every pool history.",
                 note="assumed externals (_invoke_creator, _close_connection, _return_conn); event hooks do not raise; checkout/_finalize_fairy/pre-ping retry loop bounded only"),
     "C27": dict(level="proof", technique=PROOF_TECH, design="DESIGN.md §5 C27",
-                text="the end of life of a root transaction is proved (RootTransaction._close_impl, _do_commit, _deactivate_from_connection, 148 obligations over all paths incl. the DBAPI rollback/commit raising): it is deactivated and `connection._transaction is not self` on every exit of rollback/close, so an invalidated connection never keeps a dead transaction that would block reconnecting. Bounded complement: a disconnect / ordinary error injected at every DBAPI call position of every history on a fake DBAPI, 4 handle_error listener modes.",
-                note="abstract contracts on Connection._rollback_impl/_commit_impl and NestedTransaction._cancel; _handle_dbapi_exception, invalidate, pool invalidation bounded only; real drivers' is_disconnect outside"),
+                text="Connection._handle_dbapi_exception is proved on every exit (it never returns): the per-call flags are reset; an error classified as a disconnect (dialect, exit exception, or handle_error listener) leaves the Connection without a DBAPI connection (invalidated) and the pool is told only together with that; an ordinary error invalidates nothing. Connection.invalidate and the closed / invalidated properties are proved against their definitions. The end of life of a root transaction is proved too (RootTransaction._close_impl, _do_commit, _deactivate_from_connection, 148 obligations over all paths incl. the DBAPI rollback/commit raising): it is deactivated and `connection._transaction is not self` on every exit of rollback/close, so an invalidated connection never keeps a dead transaction that would block reconnecting. Bounded complement: a disconnect / ordinary error injected at every DBAPI call position of every history on a fake DBAPI, 4 handle_error listener modes.",
+                note="quick tier: _handle_dbapi_exception without handle_error listeners (66 paths), thorough: all paths; dialect.is_disconnect an arbitrary boolean (real drivers' classification outside); Pool._invalidate and the pooled connection's invalidate assumed not to raise; _revalidate_connection and the pool bounded only"),
     "C28": dict(level="proof", technique=PROOF_TECH, design="DESIGN.md §5 C28",
                 text="_ClsLevelDispatch.update_subclass is proved for any MRO and any prior registry state: afterwards the target's collection holds, after what it held, every listener of every ancestor that has a collection, nothing else, and every other class's collection is untouched (loop invariant over the MRO). The exec-once family of _CompoundListener (_exec_once_impl, exec_once, exec_once_unless_exception) is proved in the monitor-with-interference reading: with two ghost counters (successful dispatches, final failures) the invariant `ok + final <= 1 and _exec_once == (ok + final == 1)` holds at every release of the exec-once mutex whatever other threads do (counters monotone: rely/guarantee), so exec_once dispatches at most once overall and nothing dispatches again after a success. Bounded complement: listen/remove/dispatch histories against a ghost registry, incl. nested and concurrent (two threads, forced schedule) dispatches of once listeners.",
                 note="other listener containers (_ListenerCollection, _EventKey, registry), util.only_once and _exec_w_sync_on_first_run bounded only; WeakKeyDictionary modelled as dict; interleaving granularity = statements outside the mutex"),
